@@ -126,6 +126,30 @@ func (c *Ctx) hijackWrappers() {
 			}
 			return true
 		})
+		// an error of the underlying call is the method's result: with it non-nil no return that reports success is reachable
+		if as, ok := res.(*ast.AssignStmt); ok && len(as.Lhs) == 2 {
+			if errID, isID := as.Lhs[1].(*ast.Ident); isID && errID.Name != "_" {
+				aE := fn.FromAfter(as, an.StateAfter(as).Assume(gf.FNotNil(fn.Term(errID))))
+				swallowed := false
+				ast.Inspect(fi.Decl.Body, func(x ast.Node) bool {
+					ret, isRet := x.(*ast.ReturnStmt)
+					if !isRet || len(ret.Results) == 0 {
+						return true
+					}
+					st := aE.StateBefore(ret)
+					if !st.Reachable() {
+						return true
+					}
+					last := ret.Results[len(ret.Results)-1]
+					if g, _ := st.Implies(gf.FNotNil(fn.Term(last))); !g || isNilExpr(info, last) || len(ret.Results) == 1 {
+						swallowed = true
+					}
+					return true
+				})
+				c.Check(!swallowed, "C19.6-hijack-error-is-passed-on", name, site.Pos(), "no return without that error is reachable when the underlying call failed",
+					"the hijacked "+m+" can report success although the Advanced client's call failed: the caller takes an object that was never stored for written")
+			}
+		}
 		c.Check(okRet && nRet == 1, "C19.6-hijack-result", name, fi.Decl.Pos(), "the one successful return converts the underlying call's result to the built-in type", "the hijacked "+m+" does not return the conversion of what the Advanced client returned")
 	}
 	c.Floor("C19.6-hijack-methods", n, 8)
@@ -747,6 +771,12 @@ func (c *Ctx) defaultBeforeSend() {
 // C19.5 defaulter write discipline
 
 // reviewed exceptions: function | store text -> reason
+// overwritingDefaults: "owner type.field" of defaulter stores that replace a value the object may carry, with the reason
+// why that is not a loss in the sense of C19
+var overwritingDefaults = map[string]string{
+	load.APIPkg + ".StatefulSetUpdateStrategy.RollingUpdate": "under an empty strategy type the built-in API server's own defaulting replaces the rollingUpdate stanza in exactly the same way (k8s.io/kubernetes/pkg/apis/apps/v1 SetDefaults_StatefulSet), so what is read back through the hijack client is what the built-in API would have stored for the same object",
+}
+
 var defaulterExceptions = map[string]string{
 	"SetDefaults_ResourceList|(*obj)[v1.ResourceName(key)] = val": "unguarded, state-dependent map store; idempotent because rounding up to milli scale is a projection (a rounded value rounds to itself)",
 }
@@ -864,6 +894,34 @@ func (c *Ctx) defaulterDiscipline() {
 					// (b) state-independent right-hand side
 					if stateIndependent(info, as.Rhs[i], fresh) {
 						c.OK("C19.5-defaulting-idempotent", name, as.Pos(), "state-independent right-hand side (constants / fresh allocation): re-applying writes the same value")
+						// idempotent, but it overwrites what the object said: "written through the hijack client and read back is
+						// unchanged in every field" holds only if a default is put where nothing was
+						// (AllPtrFieldsNil(&target) is the emptiness test of a struct of pointers)
+						emptyStruct := st.Reachable()
+						for _, d := range st.D {
+							has := false
+							for _, lit := range d.L {
+								if !lit.Neg && lit.A.Op == "b" && lit.A.L != nil && lit.A.L.K == 'k' && lit.A.L.Fn != nil && lit.A.L.Fn.Name() == "AllPtrFieldsNil" && len(lit.A.L.A) == 1 {
+									if a := lit.A.L.A[0]; a.K == 'a' && len(a.A) == 1 && a.A[0].Key() == lt.Key() {
+										has = true
+									}
+								}
+							}
+							if !has {
+								emptyStruct = false
+							}
+						}
+						ownerField := ""
+						if sel, isSel := l.(*ast.SelectorExpr); isSel {
+							ownerField = gf.OwnerName(info.TypeOf(sel.X)) + "." + sel.Sel.Name
+						}
+						if why, ok := overwritingDefaults[ownerField]; ok {
+							c.OK("C19.5-defaults-fill-only-what-is-empty", name, as.Pos(), "reviewed exception: "+why)
+						} else if emptyStruct {
+							c.OK("C19.5-defaults-fill-only-what-is-empty", name, as.Pos(), "stored only when every pointer field of the target is nil")
+						} else if strings.HasPrefix(fi.Pkg.PkgPath, load.ClientMod) || inRepoPkg(fi.Pkg.PkgPath) {
+							c.Bad("C19.5-defaults-fill-only-what-is-empty", name, as.Pos(), "the defaulter stores a fixed value into a field without the fact that the field is empty: a value the user has set there is replaced on the way through the hijack client")
+						}
 						continue
 					}
 					c.Bad("C19.5-defaulting-idempotent", name, as.Pos(), "a defaulter store that is neither a guarded zero-fill of its own target nor state-independent: applying the defaults twice may differ from applying them once")
